@@ -56,7 +56,7 @@ def main():
     ap.add_argument("--keep", action="store_true")
     ap.add_argument("--tier", default="quick")
     ap.add_argument("--quiet", action="store_true")
-    ap.add_argument("--sed", action="append", default=[], help="FILE|PYTHON-REGEX|REPLACEMENT (first match only); may be repeated; then PATCH is a label")
+    ap.add_argument("--sed", action="append", default=[], help="FILE ~~ PYTHON-REGEX ~~ REPLACEMENT (first match only); may be repeated; then PATCH is a label")
     ap.add_argument("patch")
     ap.add_argument("props", nargs="+")
     a = ap.parse_args()
@@ -65,7 +65,7 @@ def main():
         if a.sed:
             import re
             for spec in a.sed:
-                f, rx, rep = spec.split("|", 2)
+                f, rx, rep = spec.split(" ~~ ", 2)
                 fp = os.path.join(d, f)
                 src = open(fp).read()
                 new, n = re.subn(rx, rep, src, count=1, flags=re.S)
@@ -93,7 +93,9 @@ def main():
         fired = False
         for pr, (rc, out) in res.items():
             vio = [l for l in out.splitlines() if l.startswith("VIOLATION") or l.startswith("  ")]
-            print("%s: rc=%d %s" % (pr, rc, "FIRED" if rc == 1 else ("silent" if rc == 0 else "ERROR")))
+            if "internal-error" in out or "cargo check failed" in out:
+                rc = 3
+            print("%s: rc=%d %s" % (pr, rc, "FIRED" if rc == 1 else ("silent" if rc == 0 else "ERROR (mutant does not build or checker crashed)")))
             if not a.quiet or rc not in (0, 1):
                 for l in (vio if rc == 1 else out.splitlines()[-3:]):
                     print("   " + l[:400].replace(d + "/", ""))
